@@ -2,6 +2,7 @@ package props
 
 import (
 	"bytes"
+	"errors"
 	"fmt"
 	"sync"
 	"time"
@@ -205,7 +206,7 @@ func runC19(ctx *core.Ctx, out *core.Out) {
 		}
 		for i, e := range cn.errs {
 			if typ == 8 && i > 0 {
-				if e != ws.ErrCloseSent {
+				if !errors.Is(e, ws.ErrCloseSent) {
 					fail("prepared-close-not-final", fmt.Sprintf("connection %d: send %d after a prepared close returned %v instead of ErrCloseSent", ci, i, e), nil)
 					return
 				}
@@ -233,7 +234,7 @@ func runC19(ctx *core.Ctx, out *core.Out) {
 			variants[fmt.Sprintf("%v|%v|%d", cn.cfg.Server, m.Compressed, cn.exp[i].level)] = true
 		}
 		if typ == 8 && len(cn.exp) > 0 {
-			if e := cn.c.WriteMessage(1, []byte("x")); e != ws.ErrCloseSent {
+			if e := cn.c.WriteMessage(1, []byte("x")); !errors.Is(e, ws.ErrCloseSent) {
 				fail("prepared-close-not-final", fmt.Sprintf("connection %d: WriteMessage after a prepared close returned %v", ci, e), nil)
 				return
 			}
